@@ -211,7 +211,10 @@ fn tcall_tok(c: &TCall) -> Option<Tok> {
         TCall::WriteFeatures(v) => Tok::WriteFeatures(*v),
         TCall::MaxQueueSize(q) => Tok::MaxQueueSize(*q),
         TCall::Notify(q) => Tok::Notify(*q),
-        TCall::GetStatus => Tok::Other("get_status".into()),
+        // reading the status register is harmless and not ordered by the property (what must not
+        // happen is that the driver's status WRITES depend on what it reads back: see the oracle on
+        // status writes and the quirky read-back of the model transport)
+        TCall::GetStatus => return None,
         TCall::SetStatus(v) => Tok::Status(*v),
         TCall::SetGuestPageSize(v) => Tok::PageSize(*v),
         TCall::RequiresLegacy => Tok::RequiresLegacy,
